@@ -985,3 +985,188 @@ func runC18Cross(h *H) {
 		h.Stat("cross.decimal")
 	}
 }
+
+// C01 / C06: values beyond the reader's 1 MiB growth step, and sequences of blocks decoded into the same targets
+func init() {
+	runners["c01long"] = runC01Long
+	runners["c06seq"] = runC06Seq
+}
+
+func runC01Long(h *H) {
+	mk := []func() (proto.Column, func(string)){
+		func() (proto.Column, func(string)) { c := new(proto.ColStr); return c, func(s string) { c.Append(s) } },
+		func() (proto.Column, func(string)) {
+			c := new(proto.ColStr).Array()
+			return c, func(s string) { c.Append([]string{"x", s, "y"}) }
+		},
+		func() (proto.Column, func(string)) {
+			c := new(proto.ColStr).Nullable()
+			return c, func(s string) { c.Append(proto.NewNullable(s)) }
+		},
+	}
+	lens := []int{1<<20 - 1, 1 << 20, 1<<20 + 1, 1<<20 + 1<<19, 3<<20 + 7}
+	for i := 0; i < h.N && i < len(lens)*len(mk); i++ {
+		n := lens[i%len(lens)]
+		long := make([]byte, n)
+		for j := range long {
+			long[j] = byte('a' + j%23)
+		}
+		src, app := mk[(i/len(lens))%len(mk)]()
+		pos := h.R.Intn(3)
+		for r := 0; r < 3; r++ {
+			if r == pos {
+				app(string(long))
+			} else {
+				app("short" + strconv.Itoa(r))
+			}
+		}
+		tailCol := new(proto.ColUInt64)
+		for r := 0; r < 3; r++ {
+			tailCol.Append(uint64(1000 + r))
+		}
+		name := fmt.Sprintf("long %s len=%d at row %d", src.Type(), n, pos)
+		var buf proto.Buffer
+		blk := proto.Block{Columns: 2, Rows: 3}
+		if err := blk.EncodeBlock(&buf, proto.Version, []proto.InputColumn{{Name: "s", Data: src}, {Name: "n", Data: tailCol}}); err != nil {
+			h.Emit(name, "-", "FAIL:encode failed: "+sanitize(err.Error()))
+			continue
+		}
+		oracle := "ok"
+		for _, auto := range []bool{false, true} {
+			func() {
+				defer func() {
+					if p := recover(); p != nil {
+						oracle = fmt.Sprintf("FAIL:decode of a %d-byte string value panicked: %v", n, p)
+					}
+				}()
+				var res proto.Results
+				var target proto.Result
+				dst, _ := mk[(i/len(lens))%len(mk)]()
+				dn := new(proto.ColUInt64)
+				if auto {
+					target = res.Auto()
+				} else {
+					res = proto.Results{{Name: "s", Data: dst}, {Name: "n", Data: dn}}
+					target = res
+				}
+				r := proto.NewReader(bytes.NewReader(buf.Buf))
+				var b2 proto.Block
+				if err := b2.DecodeBlock(r, proto.Version, target); err != nil {
+					oracle = fmt.Sprintf("FAIL:a block encoded by the library with a %d-byte string value does not decode (auto=%v): %s", n, auto, sanitize(err.Error()))
+					return
+				}
+				rest, _ := io.ReadAll(r)
+				if len(rest) != 0 || len(res) != 2 {
+					oracle = fmt.Sprintf("FAIL:block with a %d-byte string value: %d bytes left unread (auto=%v)", n, len(rest), auto)
+					return
+				}
+				if !sameRows(src, res[0].Data.(proto.Column)) || !sameRows(tailCol, res[1].Data.(proto.Column)) {
+					oracle = fmt.Sprintf("FAIL:block with a %d-byte string value decodes to other values (auto=%v)", n, auto)
+				}
+			}()
+		}
+		h.Emit(name, "-", oracle)
+		h.Stat("long.block")
+	}
+}
+
+// sequences of blocks into one set of targets: after EVERY block each target must report that block's row count
+// and every Row(i) below it must be readable (C06's consistency clause on reused targets)
+func runC06Seq(h *H) {
+	cat := c01Catalogue()
+	for i := 0; i < h.N; i++ {
+		ncols := 1 + h.R.Intn(3)
+		var specs []c14ColSpec
+		for len(specs) < ncols {
+			s := cat[h.R.Intn(len(cat))]
+			if c01Skip(s) {
+				continue
+			}
+			if c, err := s.build(); err != nil || c == nil {
+				continue
+			} else if tup, ok := c.(proto.ColTuple); ok && len(tup) == 0 {
+				continue
+			}
+			specs = append(specs, s)
+		}
+		auto := h.R.Intn(3) == 0
+		var res proto.Results
+		var target proto.Result
+		if auto {
+			target = res.Auto()
+		} else {
+			for j, s := range specs {
+				c, _ := s.build()
+				res = append(res, proto.ResultColumn{Name: "c" + strconv.Itoa(j), Data: c})
+			}
+			target = res
+		}
+		rowSeq := [][]int{{3, 0}, {2, 0, 1}, {0, 2, 0}, {4, 1}, {1, 0, 0, 2}}[h.R.Intn(5)]
+		oracle := "ok"
+		desc := fmt.Sprintf("seq auto=%v rows=%v cols=", auto, rowSeq)
+		for _, s := range specs {
+			desc += s.name() + ";"
+		}
+		desc = sanitize(strings.ReplaceAll(desc, "\"", "'"))
+	blocks:
+		for bi, rows := range rowSeq {
+			var in []proto.InputColumn
+			for j, s := range specs {
+				c, err := c14Make(s, rows, h.R.Int63(), false)
+				if err != nil {
+					oracle = "-"
+					break blocks
+				}
+				in = append(in, proto.InputColumn{Name: "c" + strconv.Itoa(j), Data: c})
+			}
+			var buf proto.Buffer
+			blk := proto.Block{Columns: len(in), Rows: rows}
+			if err := blk.EncodeBlock(&buf, proto.Version, in); err != nil {
+				oracle = "-"
+				break
+			}
+			failed := func() (msg string) {
+				defer func() {
+					if p := recover(); p != nil {
+						msg = fmt.Sprintf("FAIL:block %d of the sequence: panic %v", bi, p)
+					}
+				}()
+				r := proto.NewReader(bytes.NewReader(buf.Buf))
+				var b2 proto.Block
+				if err := b2.DecodeBlock(r, proto.Version, target); err != nil {
+					if auto && bi == 0 {
+						return "-" // a type the inference does not know: not this family's subject
+					}
+					return fmt.Sprintf("FAIL:block %d of the sequence (own encoding, same schema) rejected: %s", bi, sanitize(err.Error()))
+				}
+				if auto && len(res) != len(specs) {
+					return fmt.Sprintf("FAIL:block %d: %d targets inferred for %d columns", bi, len(res), len(specs))
+				}
+				for j := range res {
+					c := res[j].Data.(proto.Column)
+					if c.Rows() != rows {
+						return fmt.Sprintf("FAIL:rows: after block %d with %d rows target %d (%s) reports Rows() = %d", bi, rows, j, sanitize(string(c.Type())), c.Rows())
+					}
+					if !rowsReadable(c) {
+						return fmt.Sprintf("FAIL:Row: after block %d a Row(i) accessor of target %d panics", bi, j)
+					}
+				}
+				return ""
+			}()
+			if failed == "-" {
+				oracle = "-"
+				break
+			}
+			if failed != "" {
+				oracle = failed
+				break
+			}
+		}
+		if oracle == "-" {
+			h.Stat("seq.skipped")
+			continue
+		}
+		h.Emit(desc, "-", oracle)
+		h.Stat("seq.blocks")
+	}
+}
